@@ -87,6 +87,19 @@ def gen_cases(tier, seed):
                             c = cl.H(cfgv, dids=dt).call(inv.callid, inv.args, inv.blobs, [(10, reply)]).case(5000, '%s / %s' % (inv.name, tag))
                             EXPECT[c.line()] = sd
                             yield c
+                    # tables with a 'default' entry (a codec instance of fixed length, of length 0, one that takes whatever is left): the
+                    # identifiers the table does not list are decoded by it - snapshot DIDs, and the DIDs of read_data_by_identifier
+                    if (inv.callid == 29 and inv.args[0] in (0x04, 0x05, 0x18) and esz is None) or inv.callid in (22, 23):
+                        for dflt in (2, 0, -1):
+                            keep = DIDS[:1] if inv.callid != 29 else DIDS[:3]
+                            dtd = keep + [(-1, dflt)]
+                            if inv.callid in (22, 23) and dflt < 0 and cl.H(cfgv, dids=dtd).cfg and inv.args[1:1 + inv.args[0]][:-1] != [d for d, _ in keep][:inv.args[0] - 1]:
+                                continue       # a DID served by a read-all default may only come last in the request
+                            hd = cl.H(cfgv, dids=dtd)
+                            for reply, sd, rs, tag in respspec.gen(inv, hd.cfg, rnd, nrec):
+                                c = cl.H(cfgv, dids=dtd).call(inv.callid, inv.args, inv.blobs, [(10, reply)]).case(5000, '%s / %s (default codec %d)' % (inv.name, tag, dflt))
+                                EXPECT[c.line()] = sd
+                                yield c
                     # responses of several hundred bytes (40 and 70 records)
                     if inv.callid == 29 and sds == 2:
                         for reply, sd, rs, tag in respspec.gen(inv, h0.cfg, rnd, (40, 70)):
